@@ -302,6 +302,7 @@ static void run_line(char *line) {
             if (!eq) continue;
             *eq = 0;
             int v = atoi(eq + 1);
+            if (!strcmp(tok[i], "noensure")) { extern int vh_flow_noensure; vh_flow_noensure = (int)v; }
             if (!strcmp(tok[i], "txhex")) vp_opt_tx_hex = v;
             else if (!strcmp(tok[i], "txcap")) vp_opt_tx_cap = v;
             else if (!strcmp(tok[i], "sleep")) vp_opt_sleep = v;
